@@ -14,7 +14,7 @@ TRUSTED_BASE = [
     "modelled, not verified: Vec/String/HashMap/SmallVec/Arc, std::str::from_utf8 (own recogniser Base/Utf8.v), String::from_utf8_lossy (Model/Display.v lossy), sort_by (stable insertion sort), FromStr impls (oracle), type_name (opaque strings)",
 ]
 
-WALK_SECONDARY = ['OpsSearch', 'Inv', 'Routes']
+WALK_SECONDARY = ['OpsSearch', 'Inv', 'Routes', 'Flags']
 
 def st(pred):
     return pred
@@ -177,5 +177,12 @@ PROPS['C15']['explanation'] = ('Closed theorems for every router the model reach
     '(Proofs/CompP.v), root shape preserved (Proofs/CanonP.v), ordering from wf+tidy. "Display lists exactly the live routes": the routes of the tree are exactly the expansions of the live templates '
     '(Abs, Proofs/RegistryP.v; C05_same_live_templates_same_stored_routes). Partial, named: the printer (Display text = Model.display of the tree, kinds in the documented order) is not the subject of a theorem; '
     'it is decided by the Display channel (model printer incl. from_utf8_lossy on the REAL dump = to_string()) and canonical_b / routes_same evaluated on every real dump.')
+
+# a flag / dirty-mark difference between the model's post-state and the real one is a correspondence break
+for _k in ('C08', 'C09', 'C10', 'C15', 'C16', 'C19'):
+    if 'Flags' not in PROPS[_k]['secondary']:
+        PROPS[_k]['secondary'] = PROPS[_k]['secondary'] + ['Flags']
+PROPS['C10']['rule'] = ('dump and Display before/after every failing call, and every search after a failing call compared with the same search before it; insert followed by delete of the same '
+    'template: dump, Display and every search compared with the state before the insert; non-trivial = failing call')
 
 NOT_APPLICABLE = {}
